@@ -227,11 +227,13 @@ PLAN = {
             {"run": "TestC18_Identity", "checks": 15000},
             {"run": "TestC18_Monitor", "checks": 5000},
             {"run": "TestC18_Concurrent", "checks": 150, "race": True},
+            {"run": "TestC18_Wrapper", "checks": 400},
         ],
         "thorough": [
             {"run": "TestC18_Identity", "checks": 2400000, "shards": 10, "timeout": 7200},
             {"run": "TestC18_Monitor", "checks": 600000, "shards": 4, "timeout": 7200},
             {"run": "TestC18_Concurrent", "checks": 6000, "race": True, "shards": 2, "timeout": 7200},
+            {"run": "TestC18_Wrapper", "checks": 60000, "shards": 4, "timeout": 7200},
         ],
     },
     "C19": {
